@@ -27,6 +27,7 @@ The real code is driven exactly the way Loader/Master drive it:
 The reference is written from the property statement (DESIGN 5/C06) with
 integers only; it never looks at the code's utilisation numbers.
 """
+from mc import modstate  # noqa: E402
 import functools
 import itertools
 import logging
@@ -333,6 +334,7 @@ class World:
     """One cell, one partition, one server, one allocation tree."""
 
     def __init__(self, parents, nodes):
+        modstate.reset()    # module-level memos do not leak between cases
         CLOCK.reset()
         self.cell = cell = S.Cell('top')
         cell.partitions[LABEL] = S.Partition(label=LABEL)
